@@ -97,13 +97,18 @@ def check(run):
     gi = GetItem(c.src, c.T, exclude_known=bool(known))
     gi.key = "meth:composeinfo.VariantBase.__getitem__"
     verify.verify(run, c.E, gi, crosscheck=False)
+    verify.verify(run, c.E, c.contracts["meth:composeinfo.VariantBase.get_variants"])
+    # the forest after a write/read cycle is the forest that was written (C01 lemma), so the clauses above carry over to re-loaded forests
+    verify.verify(run, c.E, c.contracts["rt:composeinfo.Variants:0"], only=("top_level_variants_reproduced", "child_reproduced_under_its_parent",
+                                                                           "no_other_children"), crosscheck=False)
     verify.verify(run, c.E, c.contracts["valid:composeinfo.Compose"], only=())       # (keeps the validator family in the evidence list)
     contract_samples(run, c, ADDS)
     forests(run, c)
     cycles(run, c)
     run.note("add is proved for containers holding 0 or 1 children and single-arch sets (symbolic ids, uids, names, types, arches): bounded in the NUMBER of "
              "siblings/arches; lookup is proved on the chain top->child->grandchild plus a second top-level variant (depth 3, symbolic ids)")
-    run.note("get_variants (recursion over the forest) is covered by the bounded stand-in only")
+    run.note("get_variants is proved on the chain T -> C -> G (symbolic ids, types, arches; arch filter none/symbolic, type filter none/[X]/['self']/"
+             "['self', X], both values of recursive): bounded in the SHAPE of the forest; wider forests by the bounded stand-in")
 
 
 def forests(run, c):
